@@ -86,3 +86,45 @@ Qed.
 Theorem error_status : defaultErrorHandler SESmallBuffer = 431 /\ defaultErrorHandler SETimeout = 408 /\ defaultErrorHandler SEOther = 400
   /\ forall e, exists s, writeErrorResponse e = SAnswerClose s.
 Proof. repeat split. intros e. eexists. reflexivity. Qed.
+
+(* ---- Request.ContinueReadBody: multipart pre-parsing cannot bypass the limit ---- *)
+Theorem continue_oversize parseTr preParse isForm formOk cl L b : L > 0 -> cl > L ->
+  continueReadBody parseTr preParse isForm formOk cl L b = RQBody (BErr EBodyTooLarge [] 0).
+Proof.
+  intros HL Hcl. unfold continueReadBody. destruct (Z.gtb_spec cl 0); [|lia].
+  destruct (Z.gtb_spec L 0); [|lia]. destruct (Z.gtb_spec cl L); [reflexivity|lia].
+Qed.
+
+Theorem continue_bounded parseTr preParse isForm formOk cl L b : L > 0 -> wf_bytes b ->
+  match continueReadBody parseTr preParse isForm formOk cl L b with
+  | RQBody (BOk body _ _) => blen body <= L
+  | RQForm form _ => blen form <= L
+  | _ => True
+  end.
+Proof.
+  intros HL Hwf. unfold continueReadBody.
+  destruct (reqReadBody_bounded parseTr cl L b HL Hwf) as [H1 _].
+  assert (Hplain : match RQBody (reqReadBody parseTr cl L b) with RQBody (BOk body _ _) => blen body <= L | RQForm form _ => blen form <= L | _ => True end).
+  { destruct (reqReadBody parseTr cl L b) as [d r p|e d p| |] eqn:E; try exact I. eapply H1. reflexivity. }
+  destruct (Z.gtb_spec cl 0); [|exact Hplain].
+  destruct (Z.gtb_spec L 0); [|lia]. cbn [andb]. destruct (Z.gtb_spec cl L); [exact I|].
+  destruct (preParse && isForm); [|exact Hplain].
+  destruct (Z.leb_spec cl (blen b)); cbn [andb]; [|exact I]. destruct (formOk (btake cl b)); [|exact I].
+  rewrite blen_btake by lia. lia.
+Qed.
+
+Theorem serve_continue_oversize parseTr preParse isForm formOk cfg cl b : cl > serverMaxBody cfg ->
+  serveContinueReadBody parseTr preParse isForm formOk cfg cl b = SAnswerClose StatusBadRequest.
+Proof.
+  intros Hcl. unfold serveContinueReadBody. destruct (server_limit_positive cfg) as [Hpos _].
+  rewrite (continue_oversize parseTr preParse isForm formOk cl (serverMaxBody cfg) b Hpos Hcl). reflexivity.
+Qed.
+
+Theorem serve_continue_bounded parseTr preParse isForm formOk cfg cl b body rest : wf_bytes b ->
+  serveContinueReadBody parseTr preParse isForm formOk cfg cl b = SDispatch body rest -> blen body <= serverMaxBody cfg.
+Proof.
+  intros Hwf. unfold serveContinueReadBody. destruct (server_limit_positive cfg) as [Hpos _].
+  pose proof (continue_bounded parseTr preParse isForm formOk cl (serverMaxBody cfg) b Hpos Hwf) as H.
+  destruct (continueReadBody parseTr preParse isForm formOk cl (serverMaxBody cfg) b) as [[d r p|e d p| |]|form r|]; try discriminate;
+    intros [= <- <-]; exact H.
+Qed.
